@@ -36,11 +36,30 @@ theorem Golay_corrects (x e : Nat) (hx : x < 4096) (he : e < 2 ^ 24) (hw : wt e 
     decodeInt (encode x ^^^ e) = .ok x ∧ errors { inited := true } (encode x ^^^ e) = .ok (wt e) := by
   unfold encode; rw [and_fff_of_lt x hx]; exact decode_corrects x e hx he hw
 
-example : (0x800101 : Nat) < 2 ^ 24 ∧ wt 0x800101 ≤ 3 := by decide
+/-- non-vacuity: a data value and a weight-3 pattern that touches the upper byte, the parity half and the data half -/
+example : (0xABC : Nat) < 4096 ∧ (0x800101 : Nat) < 2 ^ 24 ∧ wt 0x800101 ≤ 3 := by decide
+/-- … and the instance of the theorem for them -/
+example : decodeInt (encode 0xABC ^^^ 0x800101) = .ok 0xABC ∧ errors { inited := true } (encode 0xABC ^^^ 0x800101) = .ok 3 :=
+  Golay_corrects 0xABC 0x800101 (by decide) (by decide) (by decide)
+
+/-- the state hypothesis `inited := true` of the error-count statements is NOT redundant: `_errors` does not build the
+    tables, so on an instance that has never decoded it answers 0 for EVERY word (also for a weight-4 corruption).
+    The property's "reported by the error count" therefore holds only after a `decode` on the same instance. -/
+theorem Golay_errors_uninitialised (v : Nat) : errors fresh v = .ok 0 := by
+  have h : (v >>> 12) &&& 0xfff < 4096 := and_fff_lt _
+  simp [errors, fresh, syndrome2, Acra.Gen.Golay.GOLAY_SIZE, h]
 
 /-- the 3-byte entry of `decode` is the integer entry on the big-endian value -/
 theorem Golay_bytes_entry (b : Bytes) (h : b.length = 3) : decodeBytes b = decodeInt (beNat b) :=
   decodeBytes_eq b h
+
+example : ([0xAB, 0xC1, 0x23] : Bytes).length = 3 := rfl
+
+/-- any other length is refused with a bare `Exception` -/
+theorem Golay_bytes_entry_rejects (b : Bytes) (h : b.length ≠ 3) : decodeBytes b = .error .generic :=
+  decodeBytes_bad b h
+
+example : ([0xAB, 0xC1] : Bytes).length ≠ 3 := by decide
 
 /-- … so the 3-byte string form of a corrupted code word decodes to the value as well -/
 theorem Golay_corrects_bytes (x e : Nat) (hx : x < 4096) (he : e < 2 ^ 24) (hw : wt e ≤ 3) :
@@ -49,16 +68,21 @@ theorem Golay_corrects_bytes (x e : Nat) (hx : x < 4096) (he : e < 2 ^ 24) (hw :
   rw [decodeBytes_eq _ (by simp), beNat_beBytes_of_lt 3 _ hlt]
   exact (Golay_corrects x e hx he hw).1
 
+example : decodeBytes (beBytes 3 (encode 0xABC ^^^ 0x800101)) = .ok 0xABC :=
+  Golay_corrects_bytes 0xABC 0x800101 (by decide) (by decide) (by decide)
+
 /-- every 4-bit error pattern is reported as uncorrectable: all 4096 values × all 10626 patterns -/
 theorem Golay_flags4 (x e : Nat) (hx : x < 4096) (he : e < 2 ^ 24) (hw : wt e = 4) :
     errors { inited := true } (encode x ^^^ e) = .ok 4 := by
   unfold encode; rw [and_fff_of_lt x hx]; exact errors_flags4 x e hx he hw
 
-example : (0x810101 : Nat) < 2 ^ 24 ∧ wt 0x810101 = 4 := by decide
+example : (0xABC : Nat) < 4096 ∧ (0x810101 : Nat) < 2 ^ 24 ∧ wt 0x810101 = 4 := by decide
 
 /-- `_onesincode` (string slicing of `bin()`) is the bit count on every pattern the table loop writes -/
 theorem Golay_onesincode_patterns (i j k : Nat) (hi : i < 24) (hj : j < 24) (hk : k < 24) :
     onesincode (pat i j k) 24 = wt (pat i j k) := ones_all i j k hi hj hk
+
+example : pat 23 8 0 = 0x800101 ∧ pat 5 5 5 = 0x20 := by decide
 
 /-- the triple loop's "last write wins" is harmless: at the syndrome of each enumerated pattern the
     final tables hold that pattern's upper half and weight -/
